@@ -130,8 +130,8 @@ def coq_expr(s, r):
     if s.meta.get("family") == "history":
         sc_ = s.coq(*r['adr'])
         ob_ = common.obs_list(r)
-        return (f"(let v := check_C13h ({sc_}) {ob_} in let x := try_no_bad_release (sc_hist ({sc_})) {ob_} in "
-                f"mkv (v_strict v) (v_proj v) (v_mon v && x) (v_monk v && x), wf_histb ({sc_}) && wf4b ({sc_}))")
+        return (f"(let sc := {sc_} in let ob := {ob_} in let v := check_C13h sc ob in let x := try_no_bad_release (sc_hist sc) ob in "
+                f"(mkv (v_strict v) (v_proj v) (v_mon v && x) (v_monk v && x), wf_histb sc && wf4b sc))")
     chk = "check_C13p" if s.meta.get("poisoned") else "check_C13"
     ob = common.obs_list(r)
     # a try that "leaves the hold state as it was" issues no release of a lock it does not hold (the auditing lock only
